@@ -348,7 +348,7 @@ def _names_in(n):
 def compared(fn, st, f):
     """isomorphic_to: field f of struct st is bound on both sides and the two bindings meet in one ==/!= comparison that comes
     after both patterns and before the names are bound again."""
-    pats = sorted((n for n in A.walk(fn.body) if n["k"] == "PStruct" and P.last(n["path"]) == st), key=lambda n: (n["l"], n.get("c", 0)))
+    pats = sorted((n for n in A.walk(fn.body) if n["k"] == "PStruct" and P.last(n["path"]) == st), key=A.pos)
     if len(pats) != 2:
         return False, f"{len(pats)} destructurings of {st} (expected one per side)"
     names = []
@@ -378,13 +378,35 @@ def iso_decides(body):
             return False, "the closure has no tail expression"
         tail = st[-1]["expr"]
 
-    def has_iso(e):
-        if e["k"] == "MethodCall" and e["method"] == "isomorphic_to":
+    locals_ = {}
+    for n in A.walk(body):
+        if n["k"] == "Local" and n.get("init") is not None and n["pat"].get("k") == "PIdent":
+            locals_[n["pat"]["name"]] = n["init"]
+
+    def has_iso(e, depth=0):
+        """`e` true implies isomorphic_to(..) was asked and said true (a constant `false` implies anything)"""
+        k = e["k"]
+        if depth > 8:
+            return False
+        if k == "MethodCall" and e["method"] == "isomorphic_to":
             return True
-        if e["k"] == "Binary" and e["op"] == "&&":
-            return has_iso(e["left"]) or has_iso(e["right"])
-        if e["k"] == "Paren":
-            return has_iso(e["expr"])
+        if k == "Lit":
+            return str(e.get("v")).lower() == "false"
+        if k == "Binary" and e["op"] == "&&":
+            return has_iso(e["left"], depth + 1) or has_iso(e["right"], depth + 1)
+        if k == "Binary" and e["op"] == "||":
+            return has_iso(e["left"], depth + 1) and has_iso(e["right"], depth + 1)
+        if k == "Paren":
+            return has_iso(e["expr"], depth + 1)
+        if k == "Block":
+            st_ = e["stmts"]
+            return bool(st_) and st_[-1]["k"] == "ExprStmt" and not st_[-1]["semi"] and has_iso(st_[-1]["expr"], depth + 1)
+        if k == "If":
+            return e.get("else") is not None and has_iso(e["then"], depth + 1) and has_iso(e["else"], depth + 1)
+        if k == "Match":
+            return bool(e["arms"]) and all(has_iso(a["body"], depth + 1) for a in e["arms"])
+        if k == "Path" and e["path"] in locals_:
+            return has_iso(locals_[e["path"]], depth + 1)
         return False
 
     if not has_iso(tail):
@@ -530,9 +552,18 @@ def shared_cmd_ids(repo, res, rule="FLAGS"):
         if sw:
             esw = envs.get(id(sw[0]))
             a = []
+
+            def mcalls(t):
+                if isinstance(t, tuple):
+                    if t and t[0] == "mcall":
+                        yield t[1]
+                    for y in t:
+                        yield from mcalls(y)
             for x in sw[0]["args"]:
-                p = P.peel(A.resolve(x, esw))
-                a.append(p[1] if p[0] == "mcall" else "".join(repo.text(fn.file, x).split()))
+                t = A.resolve(x, esw)
+                p = P.peel(t)
+                # a flag may travel alone or as a field of a small struct built for the call
+                a.extend([p[1]] if p[0] == "mcall" else (sorted(set(mcalls(t))) or ["".join(repo.text(fn.file, x).split())]))
             res.check("needs_subword_commands_code" in a and "needs_subword_star_code" in a, rule, f"{rule}:{mod}:subword-code-flags", f"write_subword_fn({', '.join(a[1:])})", f"{fn.file}:{sw[0]['l']}")
 
 
@@ -615,6 +646,45 @@ REORDER_OR_DROP = {"unique", "unique_by", "dedup", "dedup_by", "dedup_by_key", "
                    "take", "take_while", "step_by", "retain", "chain", "flat_map", "flatten", "zip", "cycle", "rotate_left", "rotate_right", "reverse", "swap"}
 
 
+def accumulated_list(repo, fn, hole):
+    """the hole is a local String that a `for` loop fills: returns (ok, text) -- ok when exactly one loop appends to it, the loop runs
+    over an un-reordered, un-filtered iterator, has no continue/break/return, and the append that carries the loop's element stands
+    directly in the loop body (not under a condition); None when the hole is not such an accumulator"""
+    h = hole
+    while h.get("k") in ("Ref", "Paren"):
+        h = h["expr"]
+    if h.get("k") != "Path" or "::" in h["path"]:
+        return None
+    name = h["path"]
+    loops = []
+    for lp in A.walk(fn.body):
+        if lp["k"] != "ForLoop":
+            continue
+        apps = [m for m in A.walk(lp["body"]) if (m["k"] == "MethodCall" and m["method"] in ("push_str", "push", "extend", "write_str", "write_fmt") and m["recv"].get("k") in ("Path",) and m["recv"]["path"] == name)
+                or (m["k"] == "Macro" and m.get("name") in ("write", "writeln") and "".join(repo.text(fn.file, m).split()).split("(", 1)[-1].startswith((name + ",", "&mut" + name + ",")))]
+        if apps:
+            loops.append((lp, apps))
+    if not loops:
+        return None
+    if len(loops) != 1:
+        return False, f"`{name}` is filled by {len(loops)} loops: cannot tell which one lists the literals"
+    lp, apps = loops[0]
+    binds = set(A.pattern_names(lp["pat"])) if hasattr(A, "pattern_names") else set(re.findall(r"[a-z_][a-z0-9_]*", repo.text(fn.file, lp["pat"])))
+    meths = {m["method"] for m in A.walk(lp["iter"]) if m["k"] == "MethodCall"}
+    bad = sorted(meths & REORDER_OR_DROP)
+    if bad:
+        return False, f"literal list filled by a loop over an iterator through {sorted(meths)}: {bad} drops, merges or reorders elements, so position i no longer holds the literal the tables call i"
+    jumps = [x["k"] for x in A.walk(lp["body"]) if x["k"] in ("Continue", "Break", "Return")]
+    if jumps:
+        return False, f"the loop that fills the literal list has {jumps}: some elements may be left out, so positions shift"
+    body = lp["body"]
+    direct = [st for st in body.get("stmts", []) if any(a is st.get("expr") or a is st for a in apps) or (st.get("k") == "ExprStmt" and st["expr"].get("k") == "Try" and any(a is st["expr"]["expr"] for a in apps))]
+    carrying = [st for st in direct if binds & set(re.findall(r"[a-z_][a-z0-9_]*", repo.text(fn.file, st)))]
+    if not carrying:
+        return False, "the append that carries the loop's element is under a condition (or not found directly in the loop body): an element may be left out"
+    return True, f"literal list filled by one loop over {sorted(meths)} with an unconditional append per element"
+
+
 def litlist(repo, res, ty, rule="LITLIST"):
     """The `literals` array of every shell is positional: table cells refer to a literal by its id = its position (+ the array
     base) in get_all_literals().  The list an emitter prints must therefore be that list element for element: on the way from
@@ -642,6 +712,15 @@ def litlist(repo, res, ty, rule="LITLIST"):
 
                 pr = T.Taint(repo, ty, set(), scalars_clean=False, probe=probe)
                 raw = pr.raw(fn, e, env)
+                acc = accumulated_list(repo, fn, e) if raw and "join" not in seen else None
+                if acc is not None:
+                    # `join` written out: a String filled by a loop over the list, one unconditional append of the element's text per turn
+                    if found:
+                        continue
+                    found = True
+                    ok_, why_ = acc
+                    res.check(ok_, rule, f"{rule}:{mod}::write_literals", why_, f"{fn.file}:{s.node['l']}")
+                    continue
                 if not raw or "join" not in seen:
                     continue
                 # the positional list: the first text-carrying joined hole of write_literals
